@@ -14,7 +14,7 @@ Definition nn (i : N) := NField (Col TyNum i). Definition ns (i : N) := NField (
 Definition nb (i : N) := NField (Col TyBool i).
 Definition ki (z : Z) := NAtom (AInt z). Definition ks (s : string) := NAtom (AStr (codes s)).
 Definition kn := NAtom ANone.
-Definition ai (z : Z) := AInt z. Definition as_ (s : string) := AStr (codes s).
+Definition ai (z : Z) := NAtom (AInt z). Definition as_ (s : string) := NAtom (AStr (codes s)).
 Definition vi (z : Z) := VInt z. Definition vs (s : string) := VStr (codes s).
 Definition B := g_py_binop. Definition U := g_py_unop.'''
 COQ_CASE_TYPE = 'case'
@@ -25,9 +25,9 @@ EXHAUSTIVE = {'quick': False, 'thorough': False}
 RULE = ('three streams: (1) every type-correct parent/child shape pair -- each operator (both operand orders), '
         'function (AND/OR with 1..3 operands, NOT, IN, NOTIN, ISNULL, ISNOTNULL, IN/NOT IN subquery) over each kind of '
         'operand (column, int, negative int, str, None, arithmetic, modulo, MOD() call, unary -/+, comparison, AND, NOT, '
-        'IN list, IS NULL, IN subquery); (2) seeded random well-typed trees of depth <= 7 (quick) / 8 (thorough) mixing '
+        'IN list, IS NULL, IN subquery), and IN / NOT IN lists with each operand kind as a member in each position; (2) seeded random well-typed trees of depth <= 7 (quick) / 8 (thorough) mixing '
         'operator-built and function-built nodes, constants on either side, negative constants, empty and '
-        'NULL-containing IN lists, == None / != None on either side; (3) ill-typed trees (text only). Every typed tree '
+        'NULL-containing IN lists, IN lists with members that are columns / arithmetic, == None / != None on either side; (3) ill-typed trees (text only). Every typed tree '
         'is run as a filter on sqlite over a table holding the cross product of small value domains (NULL included) of '
         'the columns it uses. Non-trivial = the filter keeps some but not all rows; distinct = distinct (tree, rows).')
 EXPLANATION = ('Theorems C03_render_parse / C03_render_parse_full / C03_text_parse (any precedence table, any dialect, unbounded depth; tokens and '
@@ -74,20 +74,32 @@ def is_const(t):
     return t[0] == 'const'
 
 
+def members(t):
+    """the members of an IN / NOT IN list that are expressions (the others are constants)"""
+    return [m for m in t[2] if isinstance(m, list)]
+
+
+def children(t):
+    k = t[0]
+    if k in ('col', 'const'):
+        return []
+    if k == 'bin':
+        return [t[2], t[3]]
+    if k == 'un':
+        return [t[2]]
+    if k in ('AND', 'OR'):
+        return list(t[1])
+    if k in ('IN', 'NOTIN'):
+        return [t[1]] + members(t)
+    return [t[1]]
+
+
 def cols_of(t, acc=None):
     acc = set() if acc is None else acc
     if t[0] == 'col':
         acc.add((t[1], t[2]))
-    elif t[0] in ('bin',):
-        cols_of(t[2], acc)
-        cols_of(t[3], acc)
-    elif t[0] == 'un':
-        cols_of(t[2], acc)
-    elif t[0] in ('AND', 'OR'):
-        for x in t[1]:
-            cols_of(x, acc)
-    elif t[0] in ('NOT', 'ISNULL', 'ISNOTNULL', 'IN', 'NOTIN', 'INSUB', 'NOTINSUB'):
-        cols_of(t[1], acc)
+    for x in children(t):
+        cols_of(x, acc)
     return acc
 
 
@@ -95,30 +107,14 @@ def subs_of(t, acc=None):
     acc = set() if acc is None else acc
     if t[0] in ('INSUB', 'NOTINSUB'):
         acc.add(t[2])
-        subs_of(t[1], acc)
-    elif t[0] == 'bin':
-        subs_of(t[2], acc)
-        subs_of(t[3], acc)
-    elif t[0] == 'un':
-        subs_of(t[2], acc)
-    elif t[0] in ('AND', 'OR'):
-        for x in t[1]:
-            subs_of(x, acc)
-    elif t[0] in ('NOT', 'ISNULL', 'ISNOTNULL', 'IN', 'NOTIN'):
-        subs_of(t[1], acc)
+    for x in children(t):
+        subs_of(x, acc)
     return acc
 
 
 def depth(t):
-    if t[0] in ('col', 'const'):
-        return 0
-    if t[0] == 'bin':
-        return 1 + max(depth(t[2]), depth(t[3]))
-    if t[0] == 'un':
-        return 1 + depth(t[2])
-    if t[0] in ('AND', 'OR'):
-        return 1 + max(depth(x) for x in t[1])
-    return 1 + depth(t[1])
+    ch = children(t)
+    return 1 + max(depth(x) for x in ch) if ch else 0
 
 
 def kinds(t, acc):
@@ -133,18 +129,10 @@ def kinds(t, acc):
     elif k in ('AND', 'OR'):
         k = '%s/%d' % (k, len(t[1]))
     elif k in ('IN', 'NOTIN'):
-        k = k + ('/empty' if not t[2] else '/null' if None in t[2] else '')
+        k = k + ('/empty' if not t[2] else '') + ('/null' if None in t[2] else '') + ('/expr' if members(t) else '')
     acc[k] = acc.get(k, 0) + 1
-    if t[0] == 'bin':
-        kinds(t[2], acc)
-        kinds(t[3], acc)
-    elif t[0] == 'un':
-        kinds(t[2], acc)
-    elif t[0] in ('AND', 'OR'):
-        for x in t[1]:
-            kinds(x, acc)
-    elif t[0] not in ('col', 'const'):
-        kinds(t[1], acc)
+    for x in children(t):
+        kinds(x, acc)
 
 
 class Overflow(Exception):
@@ -261,10 +249,11 @@ def ev(t, row, subs):
         return of_tv(ev(t[1], row, subs) is None)
     if k == 'ISNOTNULL':
         return of_tv(ev(t[1], row, subs) is not None)
-    if k == 'IN':
-        return of_tv(in3(ev(t[1], row, subs), t[2]))
-    if k == 'NOTIN':
-        return of_tv(not3(in3(ev(t[1], row, subs), t[2])))
+    if k in ('IN', 'NOTIN'):
+        # every member takes part, constant or expression
+        vals = [ev(m, row, subs) if isinstance(m, list) else m for m in t[2]]
+        r = in3(ev(t[1], row, subs), vals)
+        return of_tv(r if k == 'IN' else not3(r))
     if k == 'INSUB':
         return of_tv(in3(ev(t[1], row, subs), subs[t[2]]))
     if k == 'NOTINSUB':
@@ -288,9 +277,7 @@ def has_rmod_under_div(t, under=False):
         return has_rmod_under_div(t[2], under)
     if t[0] in ('AND', 'OR'):
         return any(has_rmod_under_div(x, False) for x in t[1])
-    if t[0] in ('col', 'const'):
-        return False
-    return has_rmod_under_div(t[1], False)
+    return any(has_rmod_under_div(x, False) for x in children(t))
 
 
 class Gen:
@@ -309,12 +296,16 @@ class Gen:
             return ['const', r.choice([-7, -3, -2, -1, 0, 1, 2, 3, 5, 10])]
         return ['const', r.choice(STRCONST)]
 
-    def atoms(self, ty):
+    def atoms(self, ty, d=0):
+        """the members of an IN list: constants, None and (a third of the lists) expressions"""
         r = self.rng
         n = r.choice([0, 1, 1, 2, 3, 4])
+        with_exprs = r.random() < 0.35
         out = []
         for _ in range(n):
-            if r.random() < 0.15:
+            if with_exprs and r.random() < 0.5:
+                out.append(self.expr(ty, min(d, r.choice([0, 0, 1, 2]))))
+            elif r.random() < 0.15:
                 out.append(None)
             elif ty == 'n':
                 out.append(r.choice([-3, -2, -1, 0, 1, 2, 3, 7]))
@@ -353,7 +344,7 @@ class Gen:
         if k < 0.80:
             t = r.choice(['n', 'n', 's'])
             item = self.const(t) if r.random() < 0.05 else self.expr(t, d - 1)
-            return [r.choice(['IN', 'NOTIN']), item, self.atoms(t)]
+            return [r.choice(['IN', 'NOTIN']), item, self.atoms(t, d - 1)]
         if k < 0.86:
             t = r.choice(['n', 's', 'b'])
             return [r.choice(['ISNULL', 'ISNOTNULL']), self.expr(t, d - 1)]
@@ -510,6 +501,17 @@ def shape_pairs(rng):
         if ty == 'n':
             add('b', ['INSUB', a, 0])
             add('b', ['NOTINSUB', a, 1])
+    # IN / NOT IN lists with members that are expressions: every operand kind as a member, in each position,
+    # next to constants, None and a second expression
+    for (ta, a), (tb, b) in itertools.product(ks, ks):
+        if ta != tb or ta == 'b' or is_const(b):
+            continue
+        c0 = 3 if ta == 'n' else 'ab'
+        other = ['col', ta, 1]
+        add('b', ['IN', a, [b, c0]])
+        add('b', ['NOTIN', a, [c0, b]])
+        add('b', ['IN', a, [other, None, b]])
+        add('b', ['NOTIN', a, [b, c0, other]])
     return out
 
 
@@ -522,14 +524,7 @@ def field_const_mismatch(t):
                 if a[0] == 'col' and b[0] == 'const' and b[1] is not None:
                     if {'n': int, 's': str, 'b': bool}[a[1]] is not type(b[1]):
                         return True
-        return field_const_mismatch(t[2]) or field_const_mismatch(t[3])
-    if t[0] == 'un':
-        return field_const_mismatch(t[2])
-    if t[0] in ('AND', 'OR'):
-        return any(field_const_mismatch(x) for x in t[1])
-    if t[0] in ('col', 'const'):
-        return False
-    return field_const_mismatch(t[1])
+    return any(field_const_mismatch(x) for x in children(t))
 
 
 def malformed_cases(rng, n):
@@ -577,8 +572,9 @@ WITNESS = {'e': ['bin', '==', ['bin', '<', ['col', 'n', 1], ['const', 2]],
 
 def corpus():
     n0, n1, s0, b0 = ['col', 'n', 0], ['col', 'n', 1], ['col', 's', 0], ['col', 'b', 0]
-    rows = [[1, {'n0': 1, 'n1': 2, 's0': 'a', 'b0': 1}], [2, {'n0': -2, 's0': "o'k", 'b0': 0}],
-            [3, {'n1': 0}], [4, {'n0': 0, 'n1': -1, 's0': '', 'b0': 1}], [5, {'n0': 3, 'n1': 3, 's0': 'B'}]]
+    rows = [[1, {'n0': 1, 'n1': 2, 'n2': 1, 's0': 'a', 'b0': 1}], [2, {'n0': -2, 'n2': 2, 's0': "o'k", 'b0': 0}],
+            [3, {'n1': 0}], [4, {'n0': 0, 'n1': -1, 'n2': 5, 's0': '', 'b0': 1}],
+            [5, {'n0': 3, 'n1': 2, 'n2': 9, 's0': 'B'}], [6, {'n0': 7, 'n1': 1}]]
     trees = [
         ['bin', '==', n0, ['const', None]], ['bin', '!=', ['const', None], n0],
         ['NOTIN', n0, [1, None, -2]], ['IN', n0, []], ['NOTIN', n0, []],
@@ -589,6 +585,12 @@ def corpus():
         ['bin', '<=', ['bin', '-', ['const', -1], ['un', '-', ['un', '-', n0]]], ['bin', '/', n1, ['bin', '-', n0, ['const', 1]]]],
         ['INSUB', ['bin', '+', n0, ['const', 1]], 0],
         ['bin', '==', ['INSUB', ['bin', '+', n0, ['const', 1]], 0], ['bin', '<', n1, ['const', 2]]],
+    ]
+    n2 = ['col', 'n', 2]
+    trees += [  # members that are columns / arithmetic: every one takes part (seed c03_in_list_dedup_loses_expressions)
+        ['IN', n0, [n1, n2]], ['IN', n0, [['bin', '+', n1, ['const', 1]], 7]],
+        ['IN', n0, [7, ['bin', '+', n1, ['const', 1]]]], ['NOTIN', n0, [n2, 5, n1]],
+        ['NOTIN', n0, [n1, None, ['un', '-', n2]]], ['IN', n0, [1, 3, 1, 3]],
     ]
     out = [dict(WITNESS)]
     for t in trees:
@@ -673,9 +675,9 @@ def run_impl(cases):
         if k == 'NOT':
             return sb.NOT(build(t[1]))
         if k == 'IN':
-            return sb.IN(build(t[1]), list(t[2]))
+            return sb.IN(build(t[1]), [build(m) if isinstance(m, list) else m for m in t[2]])
         if k == 'NOTIN':
-            return sb.NOTIN(build(t[1]), tuple(t[2]))
+            return sb.NOTIN(build(t[1]), tuple(build(m) if isinstance(m, list) else m for m in t[2]))
         if k == 'ISNULL':
             return sb.ISNULL(build(t[1]))
         if k == 'ISNOTNULL':
@@ -756,7 +758,7 @@ def coq_str(s):
 
 def coq_atom(v):
     if v is None:
-        return 'ANone'
+        return 'kn'
     if isinstance(v, int):
         return '(ai %s)' % zlit(v)
     return '(as_ %s)' % coq_str(v)
@@ -783,7 +785,7 @@ def coq_tree(t):
     if k == 'NOT':
         return '(gen_NOT %s)' % coq_tree(t[1])
     if k in ('IN', 'NOTIN'):
-        return '(gen_%s %s (NList [%s]))' % (k, coq_tree(t[1]), '; '.join(coq_atom(v) for v in t[2]))
+        return '(gen_%s %s (NList [%s]))' % (k, coq_tree(t[1]), '; '.join(coq_tree(v) if isinstance(v, list) else coq_atom(v) for v in t[2]))
     if k in ('ISNULL', 'ISNOTNULL'):
         return '(gen_%s %s)' % (k, coq_tree(t[1]))
     if k == 'INSUB':
